@@ -242,7 +242,8 @@ func init() {
 			return Tuple{term.BV(64, 0), Str{S: "?"}, i64(0), term.False}
 		},
 		"runtime/debug.Stack": func(st *State, _ *frame, _ *ssa.Function, a []Value) Value {
-			return st.bytesToSlice(Str{S: "<stack>"}.Bytes())
+			// shaped like a real trace (header + frame pairs) for code that trims frames
+			return st.bytesToSlice(Str{S: "goroutine 1 [running]:\nruntime/debug.Stack()\n\t<vm>\nsymgo.frame1()\n\t<vm>\nsymgo.frame2()\n\t<vm>\nsymgo.frame3()\n\t<vm>\n"}.Bytes())
 		},
 		"runtime.SetFinalizer": nop,
 		"runtime.Goexit": func(st *State, _ *frame, _ *ssa.Function, a []Value) Value {
